@@ -1079,7 +1079,8 @@ def check_lookup(facts, fn, verified):
         if o and o[0] in ("cp", "mv"):
             visit_place(o[1])
 
-    for b_ in allblocks:
+    # (rows handled outside the loops count too: a peeled first row `win[0]` followed by `for i in 1..16`)
+    for b_ in sorted(body.reach):
         blk = body.blocks[b_]
         for st in blk["s"]:
             if st[0] != "A":
